@@ -48,6 +48,44 @@ LongNext == \/ nl < NLong /\ \E l \in LongSet : AppendLabel(l)
             \/ nl = NLong /\ \E l \in TailSet : AppendLabel(l)
 LongSpec == CharInit /\ [][LongNext]_vars
 
+(* --- huge rejected inputs --- *)
+HugeTotals == {1023, 1024, 1025, 1500, 5000, 70000}
+HugeKinds  == {"labelL", "labelD", "labelX", "label-", "label_", "labelL.tld", "labelX.tld",
+               "name", "name-bad-start", "name-bad-middle", "name-bad-end", "name_start", "name-end"}
+(* n blocks "63 letters + dot" *)
+Blocks(n) == [i \in 1..(2 * n) |-> IF i % 2 = 1 THEN Run("L", 63) ELSE Dot]
+(* a name of exactly T bytes: 63-byte labels and a last label of 1..64 bytes; the     *)
+(* block `at` (0: none) has its 32nd byte replaced by class c                          *)
+LongName(T, at, c) ==
+    LET n == (T - 1) \div 64
+        r == T - 64 * n
+        b == Blocks(n)
+    IN (IF at = 0 THEN b
+        ELSE SubSeq(b, 1, 2 * at - 2) \o <<Run("L", 31), Run(c, 1), Run("L", 31)>> \o SubSeq(b, 2 * at, 2 * n))
+       \o <<Run("L", r)>>
+Huge(kind, T) ==
+    CASE kind = "labelL" -> <<Run("L", T)>>
+      [] kind = "labelD" -> <<Run("D", T)>>
+      [] kind = "labelX" -> <<Run("X", T)>>
+      [] kind = "label-" -> <<Run("-", T)>>
+      [] kind = "label_" -> <<Run("_", T)>>
+      [] kind = "labelL.tld" -> <<Run("L", T - 4), Dot, Run("L", 3)>>
+      [] kind = "labelX.tld" -> <<Run("L", 1), Run("X", T - 6), Run("L", 1), Dot, Run("L", 3)>>
+      [] kind = "name" -> LongName(T, 0, "L")
+      [] kind = "name-bad-start" -> <<Run("X", 1)>> \o LongName(T - 1, 0, "L")
+      [] kind = "name_start" -> <<Run("_", 1)>> \o LongName(T - 1, 0, "L")
+      [] kind = "name-bad-middle" -> LongName(T, ((T - 1) \div 64) \div 2 + 1, "X")
+      [] kind = "name-bad-end" -> LongName(T - 1, 0, "L") \o <<Run("X", 1)>>
+      [] kind = "name-end" -> LongName(T - 1, 0, "L") \o <<Run("-", 1)>>
+HugeSet == {Huge(k, T) : k \in HugeKinds, T \in HugeTotals}
+(* one step from the empty input to each huge one (evaluated by TLC's worker threads, *)
+(* whose stack is large enough for the recursion over ~2200 runs)                      *)
+HugeNext == nl = 0 /\ \E h \in HugeSet : s' = h /\ nl' = 1
+HugeSpec == CharInit /\ [][HugeNext]_vars
+(* all of them are rejected by every validator, and have the intended size *)
+HugeInv == nl = 1 => /\ ByteLen(s) \in HugeTotals
+                     /\ ~DomainName(s) /\ ~SrvName(s) /\ ~Hostname(s)
+
 (* compact encoding of the runs: [["L",1],["-",61],...] *)
 Enc(t) == [i \in DOMAIN t |-> <<t[i].c, t[i].n>>]
 
